@@ -970,6 +970,27 @@ theorem memos_reviewed :
     FV.Gen.C07.memos = reviewedMemos.map (fun e => (e.1, e.2.1, e.2.2.1, e.2.2.2.1)) := by
   decide
 
+/-- Intern lookups never rely on the truth value of the stored object (an interned class may be
+    falsy — e.g. a domain with a `__len__` of 0 — and a term's `__bool__` raises): the domain table
+    tests `is None`, the product table catches `KeyError`, `reflect` tests `in`
+    (`source_forms_modelled`) and the op table tests `is None` (`op_source_forms_modelled`).
+    The model's `lookup` returns an `Option`: presence, not truthiness. -/
+theorem lookup_source_forms_modelled :
+    FV.Gen.C07.domainLookupForm =
+      "result = ArrayType._type_cache.get(key, None) ;; if result is None ;; ArrayType._type_cache[key] = result" ∧
+    FV.Gen.C07.productLookupForm =
+      "try: return ProductDomain._type_cache[arg_domains] except KeyError: assert isinstance(arg_domains, tuple) assert all((isinstance(arg_domain, Domain) for arg_domain in arg_domains)) subcls = type('Product_', (Product,), {'__args__': arg_domains}) ProductDomain._type_cache[arg_domains] = subcls return subcls" := by
+  refine ⟨?_, ?_⟩ <;> rfl
+
+/-- Zero-size event shapes are ordinary keys: `Bint[2,0]` = `Array[2,(0,)]` ≠ `Bint[2]`, `Reals[0]` ≠ `Real`. -/
+theorem zero_shape_keys :
+    let k := fun (m : String) (a : List ArgTok) => ((splitTop a >>= normArgs m).map List.flatten >>= mkKey)
+    k "Bint" [.lp, .int 2, .int 0, .rp] = k "Array" [.int 2, .lp, .int 0, .rp] ∧
+    k "Bint" [.lp, .int 2, .int 0, .rp] ≠ k "Bint" [.int 2] ∧
+    k "Reals" [.int 0] ≠ k "Reals" [] ∧
+    k "Bint" [.lp, .int 3, .int 0, .int 2, .rp] ≠ k "Bint" [.lp, .int 3, .int 2, .int 0, .rp] := by
+  decide
+
 /-! ### weakly held -/
 
 /-- Freeing an object removes its table entry with it: no later lookup can return it. -/
